@@ -125,6 +125,7 @@ class Ctx:
                     a.__dict__.update(data)
                     a.h = h
                     a.cached = True
+                    os.utime(path)
                 except Exception:  # noqa: BLE001  corrupted cache: rebuild
                     a = None
             if a is None:
@@ -139,7 +140,7 @@ class Ctx:
                 os.replace(tmp, path)
                 # keep the cache small: only the most recent entries per handler/table survive
                 olds = sorted((o for o in CACHE.glob(f"ats-{which}-{variant}-*.pkl") if o != path), key=lambda o: o.stat().st_mtime, reverse=True)
-                for old in olds[5:]:
+                for old in olds[11:]:
                     try:
                         old.unlink()
                         old.with_suffix(".lock").unlink()
@@ -233,6 +234,15 @@ def run_check(pid: str, fn: Any, tier: str, level: str = "other") -> int:
             print(f"    construct: {f.key}")
             print(f"VIOLATION property={pid} replay={rp}")
     wall = time.time() - t0
+    if ctx._ats and "ats" not in ev.extra:
+        ev.extra["ats"] = {f"{k[0]}/{k[1]}": {"nodes": len(a.nodes), "edges": len(a.edges), "from_cache": getattr(a, "cached", False),
+                                               "build_wall_s": round(a.wall, 1), "functions_interpreted": len(a.stats["funcs_entered"]),
+                                               "statements_interpreted": a.stats["stmts"]} for k, a in ctx._ats.items()}
+        ev.extra.setdefault("states", sum(len(a.nodes) for a in ctx._ats.values()))
+        ev.extra.setdefault("transitions", sum(len(a.edges) for a in ctx._ats.values()))
+        for a in ctx._ats.values():
+            for k, n in sorted(a.stats["assumptions"].items(), key=lambda kv: -kv[1])[:6]:
+                ev.assume(f"engine: {k}")
     constructs = {(i.rule, i.construct) for i in ev.instances}
     per_rule = {}
     for i in ev.instances:
